@@ -66,7 +66,7 @@ structure Thread where
   nested : Bool := false            -- inside the `_send` of ... (unused: `_send` is inlined in the pcs)
   deriving Repr, Inhabited
 
-def Thread.finished (t : Thread) : Bool := t.cur.isNone && t.todo.isEmpty
+def Thread.finished (t : Thread) : Bool := t.cur.isNone
 
 def runPP (sh : Shared) : PP → Shared
   | .clear s => { sh with firing := sh.firing.set s none, changed := sh.changed.set s false }
@@ -77,15 +77,15 @@ def updateNode (sh : Shared) (n : Nat) : Shared :=
   if n < sh.nsinks then
     -- a sink: no dependencies; if changed, queue its dependents (its listener)
     if sh.visited.get n then sh else
-    let sh := { sh with visited := sh.visited.set n true, prePost := sh.prePost ++ [.unvisit n] }
+    let sh := { sh with visited := sh.visited.set n true, prePost := sh.prePost ++ [PP.unvisit n] }
     if sh.changed.get n then { sh with changedNodes := sh.changedNodes ++ [sh.nsinks + n] } else sh
   else
     let s := n - sh.nsinks
     if sh.visited.get n then sh else
-    let sh := { sh with visited := sh.visited.set n true, prePost := sh.prePost ++ [.unvisit n] }
+    let sh := { sh with visited := sh.visited.set n true, prePost := sh.prePost ++ [PP.unvisit n] }
     -- visit the dependency (the sink) if it is not visited yet
     let sh := if sh.visited.get s then sh else
-      let sh := { sh with visited := sh.visited.set s true, prePost := sh.prePost ++ [.unvisit s] }
+      let sh := { sh with visited := sh.visited.set s true, prePost := sh.prePost ++ [PP.unvisit s] }
       if sh.changed.get s then { sh with changedNodes := sh.changedNodes ++ [sh.nsinks + s] } else sh
     -- run the listener iff the sink is marked changed; it delivers what is in the firing slot
     if sh.changed.get s then
@@ -97,13 +97,16 @@ def updateNode (sh : Shared) (n : Nat) : Shared :=
 def decDepth (sh : Shared) : Shared :=
   if sh.depth = 0 then { sh with underflow := true } else { sh with depth := sh.depth - 1 }
 
+/-- `send` has returned: go on with the next send of the program, if any -/
+def Thread.next (t : Thread) : Thread :=
+  match t.todo with
+  | [] => { t with cur := none, pc := .sent }
+  | sv :: rest => { t with todo := rest, cur := some sv, pc := .start, nested := false }
+
 /-- one segment of thread `t` -/
 def stepThread (sh : Shared) (t : Thread) : Shared × Thread :=
   match t.cur with
-  | none =>
-    match t.todo with
-    | [] => (sh, t)
-    | sv :: rest => (sh, { t with todo := rest, cur := some sv, pc := .start })
+  | none => (sh, t)
   | some (s, v) =>
     match t.pc with
     | .start => ({ sh with depth := sh.depth + 1 }, { t with pc := .entered })
@@ -113,7 +116,7 @@ def stepThread (sh : Shared) (t : Thread) : Shared × Thread :=
     | .entered2 =>
       let first := (sh.firing.get s).isNone
       let sh := { sh with firing := sh.firing.set s (some v), changed := sh.changed.set s true }
-      let sh := if first then { sh with prePost := sh.prePost ++ [.clear s] } else sh
+      let sh := if first then { sh with prePost := sh.prePost ++ [PP.clear s] } else sh
       (sh, { t with pc := .stored })
     | .stored =>
       let sh := decDepth sh
@@ -127,7 +130,7 @@ def stepThread (sh : Shared) (t : Thread) : Shared × Thread :=
       (sh, { t with pc := .left (sh.depth == 0) })
     | .left eot =>
       if eot then ({ sh with depth := sh.depth + 1, allow := sh.allow + 1 }, { t with pc := .eotStart })
-      else (sh, { t with pc := .sent, cur := none })
+      else (sh, t.next)
     | .eotStart => (sh, { t with pc := .afterPreEot })         -- no pre_eot closures in this scenario
     | .afterPreEot => ({ sh with changedNodes := [] }, { t with pc := .took sh.changedNodes })
     | .took batch =>
@@ -145,12 +148,12 @@ def stepThread (sh : Shared) (t : Thread) : Shared × Thread :=
       let sh := { sh with allow := sh.allow - 1 }
       if sh.allow = 0 then (sh, { t with pc := .beforeCollect })
       else if t.nested then (sh, { t with pc := .afterStore, nested := false })
-      else (sh, { t with pc := .sent, cur := none })
+      else (sh, t.next)
     | .beforeCollect =>
       let sh := { sh with collects := sh.collects + 1 }
       if t.nested then (sh, { t with pc := .afterStore, nested := false })
-      else (sh, { t with pc := .sent, cur := none })
-    | .sent => (sh, { t with cur := none })
+      else (sh, t.next)
+    | .sent => (sh, t.next)
 
 /-- the harness calls the schedule point `sent` after each send and `start` before the first: a
     thread that has just finished a send still needs one scheduling step to begin the next one,
@@ -175,7 +178,7 @@ def showRes (sh : Shared) : String :=
     (if sh.underflow then " PANIC" else "")
 
 def run (nsinks : Nat) (progs : List (List (Nat × Int))) (sched : List Nat) : Shared :=
-  let ths := (progs.map fun p => ({ todo := p } : Thread)).toArray
+  let ths := (progs.map fun p => ({ todo := p } : Thread).next).toArray
   (runSched 4000 { nsinks := nsinks } ths sched).1
 
 end Conc
